@@ -68,6 +68,7 @@ pub async fn run_acb_app_to_delta_models(
     let mut all_txs = Vec::<Tx>::new();
     let mut global_read_index: u32 = 0;
     for mut csv_reader in csv_file_readers {
+        let csv_desc = csv_reader.desc().to_string();
         let mut csv_txs = parse_tx_csv(
             &mut csv_reader,
             global_read_index,
@@ -79,7 +80,11 @@ pub async fn run_acb_app_to_delta_models(
 
         let mut txs = Vec::<Tx>::with_capacity(csv_txs.len());
         for csv_tx in csv_txs {
-            txs.push(Tx::try_from(csv_tx)?)
+            // Same numbering as parse_tx_csv: starts at 1 and includes the header.
+            let row_num = csv_tx.read_index - global_read_index + 2;
+            txs.push(Tx::try_from(csv_tx).map_err(|e| {
+                format!("Error on row {row_num} of {csv_desc}: {e}")
+            })?)
         }
 
         global_read_index += txs.len() as u32;
